@@ -112,8 +112,10 @@ def table(shape, nrows, fail=None):
     cols = {}
     if shape in ("par", "both"):
         cols["k2"] = list(ks)
-    if shape in ("init", "both"):
+    if shape in ("init", "both", "both-rev"):
         cols["x"] = list(xs)
+    if shape == "both-rev":  # initial-value column first, parameter column second
+        cols["k2"] = list(ks)
     if fail is not None:
         pos, mech = fail
         cols.setdefault("k2", list(ks))
@@ -432,7 +434,7 @@ def check(case):
 def generate(tier):
     cases = []
     seq_kinds = ["steady_state", "time_course", "protocol", "protocol_time_course"]
-    for model, tbl, kind in it.product(("ma", "derived", "ia"), ("par", "init", "both"), seq_kinds):
+    for model, tbl, kind in it.product(("ma", "derived", "ia"), ("par", "init", "both", "both-rev"), seq_kinds):
         for rows in (1, 2, 3):
             for read in it.permutations(range(rows)):
                 for vf in ("variables", "fluxes"):
